@@ -184,7 +184,10 @@ func runWorker(chk *Check, tier string, shard, n int, resume, only int64, skip [
 	}
 	cmd := exec.Command(self(), "-worker", chk.ID, tier, strconv.Itoa(shard), strconv.Itoa(n),
 		strconv.FormatInt(resume, 10), strconv.FormatInt(only, 10), strings.Join(sk, ","), progress)
-	cmd.Env = append(append(os.Environ(), "GOMAXPROCS=2", "GOMEMLIMIT=3GiB", "GOTRACEBACK=single", "VERIF_HASH_SEED="+HashSeed()), env...)
+	raceLog := filepath.Join(VerifDir, ".build", "run", fmt.Sprintf("race.%s.%d.%d", chk.ID, shard, os.Getpid()))
+	cmd.Env = append(append(os.Environ(), "GOMAXPROCS=2", "GOMEMLIMIT=3GiB", "GOTRACEBACK=single", "VERIF_HASH_SEED="+HashSeed(),
+		// race-instrumented drivers (E2): reports go to a log the worker turns into failures; they must not kill it
+		"GORACE=halt_on_error=0 exitcode=0 history_size=5 log_path="+raceLog, "VERIF_RACE_LOG="+raceLog), env...)
 	var out, errb bytes.Buffer
 	cmd.Stdout = &out
 	cmd.Stderr = &errb
